@@ -84,9 +84,10 @@ static sspec read_sspec(std::vector<std::string> const &a, size_t &p)
   return s;
 }
 // a grid on the module's variables whose boundaries/widths are then set as requested (init_from_boundaries + setup)
-static colvar_grid<double> *state_grid(colvarmodule *cv, sspec const &s)
+static colvar_grid<double> *state_grid(colvarmodule *cv, sspec const &s, bool extra_bin = false)
 {
   std::vector<colvar *> cvs(*cv->variables());
+  if (extra_bin) return new colvar_grid<double>(cvs, 0.0, s.mult, true);   // the variables' own boundaries, shifted
   colvar_grid<double> *g = new colvar_grid<double>(cvs, 0.0, s.mult);
   for (int i = 0; i < s.nd; i++) {
     g->lower_boundaries[i] = colvarvalue(s.gl[i]);
@@ -210,14 +211,89 @@ int main(int argc, char **argv)
       bool add = false;
       bool remap_expected = (fmt == "multicolR");   // the re-gridding loop always ends with the stream at EOF in the failed state
       if (remap_expected) fmt = "multicol";
+      bool via_file = (fmt == "multicolF");
+      if (via_file) fmt = "multicol";
       if (fmt == "multicol") add = ni() != 0;
       gspec sp = read_spec(a, p);
       colvar_grid<double> g; fill_grid(g, sp);
       std::istringstream is(text_arg(line));
       cvm::clear_error();
-      if (fmt == "multicol") g.read_multicol(is, add); else g.read_raw(is);
-      bool bad = (!is) || (cvm::get_error() != COLVARS_OK);
+      bool bad;
+      if (via_file) {
+        // the file-name variant: read_multicol(filename, description, add) and its return code
+        std::string fn = "c15_gr.dat";
+        { std::ofstream f(fn.c_str()); f << text_arg(line); }
+        int rcode = g.read_multicol(fn, "grid file", add);
+        bad = (rcode != COLVARS_OK) || (cvm::get_error() != COLVARS_OK);
+        proxy->close_input_streams();
+        remove(fn.c_str());
+      } else {
+        if (fmt == "multicol") g.read_multicol(is, add); else g.read_raw(is);
+        bad = (!is) || (cvm::get_error() != COLVARS_OK);
+      }
       if (bad) std::cout << "ERR\n"; else print_grid(g);
+      cvm::clear_error();
+    } else if (cmd == "OPB") {
+      // OPB nd nx.. lower.. width.. per.. x.. : per dimension value_to_bin_scalar, _bound, _fraction; then get_colvars_index
+      int nd = ni();
+      std::vector<int> nx(nd);
+      for (int i = 0; i < nd; i++) nx[i] = ni();
+      colvar_grid<double> g(nx, 0.0, 1);
+      for (int i = 0; i < nd; i++) g.lower_boundaries.push_back(colvarvalue(nf()));
+      for (int i = 0; i < nd; i++) g.widths.push_back(nf());
+      for (int i = 0; i < nd; i++) g.periodic.push_back(ni() != 0);
+      std::vector<colvarvalue> xs;
+      for (int i = 0; i < nd; i++) xs.push_back(colvarvalue(nf()));
+      for (int i = 0; i < nd; i++)
+        std::cout << (i ? " " : "") << g.value_to_bin_scalar(xs[i], i) << " " << g.value_to_bin_scalar_bound(xs[i], i) << " "
+                  << vs_hex(g.value_to_bin_scalar_fraction(xs[i], i));
+      std::vector<int> ci = g.get_colvars_index(xs);
+      std::cout << " I";
+      for (int i = 0; i < nd; i++) std::cout << " " << ci[i];
+      std::cout << "\n";
+    } else if (cmd == "OPW") {
+      // OPW nd nx.. per.. ix.. : wrap_to_edge (index, edge bin, flag), then wrap (or ERR)
+      int nd = ni();
+      std::vector<int> nx(nd), ix(nd);
+      for (int i = 0; i < nd; i++) nx[i] = ni();
+      colvar_grid<double> g(nx, 0.0, 1);
+      for (int i = 0; i < nd; i++) g.periodic.push_back(ni() != 0);
+      for (int i = 0; i < nd; i++) ix[i] = ni();
+      std::vector<int> r(ix), e;
+      bool edge = g.wrap_to_edge(r, e);
+      for (int i = 0; i < nd; i++) std::cout << r[i] << " ";
+      std::cout << "E";
+      for (int i = 0; i < nd; i++) std::cout << " " << e[i];
+      std::cout << " " << (edge ? 1 : 0) << " W";
+      cvm::clear_error();
+      std::vector<int> w2(ix); g.wrap(w2);
+      if (cvm::get_error() != COLVARS_OK) std::cout << " ERR"; else for (int i = 0; i < nd; i++) std::cout << " " << w2[i];
+      std::cout << "\n";
+      cvm::clear_error();
+    } else if (cmd == "OPM") {
+      // OPM <spec this> <spec other> : this.map_grid(other)
+      gspec a1 = read_spec(a, p), a2 = read_spec(a, p);
+      colvar_grid<double> g1, g2; fill_grid(g1, a1); fill_grid(g2, a2);
+      cvm::clear_error();
+      g1.map_grid(g2);
+      if (cvm::get_error() != COLVARS_OK) std::cout << "ERR\n"; else print_grid(g1);
+      cvm::clear_error();
+    } else if (cmd == "OPE") {
+      // OPE <op> <scalar> <spec this> <spec other> : element-wise operations
+      std::string op = a[p++]; double c = nf();
+      gspec a1 = read_spec(a, p), a2 = read_spec(a, p);
+      colvar_grid<double> g1, g2; fill_grid(g1, a1); fill_grid(g2, a2);
+      cvm::clear_error();
+      if (op == "add") g1.add_grid(g2, c);
+      else if (op == "copy") g1.copy_grid(g2);
+      else if (op == "delta") g1.delta_grid(g2);
+      else if (op == "mul") g1.multiply_constant(c);
+      else if (op == "addc") g1.add_constant(c);
+      else if (op == "small") g1.remove_small_values(c);
+      else if (op == "raw") { std::vector<double> buf(g2.raw_data_num()); g2.raw_data_out(buf.data()); g1.raw_data_in(buf.data()); }
+      else if (op == "rawv") { std::vector<double> buf; g2.raw_data_out(buf); g1.raw_data_in(buf); }
+      else if (op == "set") { for (std::vector<int> ix = g1.new_index(); g1.index_ok(ix); g1.incr(ix)) for (size_t im = 0; im < g1.mult; im++) g1.set_value(ix, g2.value(ix, im), im); }
+      if (cvm::get_error() != COLVARS_OK) std::cout << "ERR\n"; else print_grid(g1);
       cvm::clear_error();
     } else if (cmd == "GWB") {
       // unformatted raw form: bytes of the memory_stream in hex
@@ -299,8 +375,35 @@ int main(int argc, char **argv)
       if (err != COLVARS_OK || int(proxy->colvars->variables()->size()) != sp.nd) {
         std::cout << "CONFIG-ERR\n";
       } else {
-        colvar_grid<double> *g = state_grid(proxy->colvars, sp);
-        if (a.size() > p && a[p] == "GRID") {
+        bool xb = (a.size() > p && a[p] == "XGRID");
+        colvar_grid<double> *g = state_grid(proxy->colvars, sp, xb);
+        if (a.size() > p && a[p] == "CUR") {
+          // SW <sspec> CUR z.. : the variables are evaluated at z.. (one engine step) and the overloads that take the
+          // current values of the variables are called: current_bin_scalar, _bound, _fraction, get_colvars_index(_bound),
+          // current_bin_flat_bound
+          p++;
+          for (int d = 0; d < sp.nd; d++) eng.pos[d] = cvm::rvector(0, 0, nf());
+          proxy->step();
+          cvm::clear_error();
+          std::cout << "V";
+          for (int d = 0; d < sp.nd; d++) std::cout << " " << vs_hex(g->cv[d]->value().real_value);
+          std::cout << " B";
+          for (int d = 0; d < sp.nd; d++) std::cout << " " << g->current_bin_scalar(d);
+          std::cout << " BB";
+          for (int d = 0; d < sp.nd; d++) std::cout << " " << g->current_bin_scalar_bound(d);
+          std::cout << " F";
+          for (int d = 0; d < sp.nd; d++) std::cout << " " << vs_hex(g->current_bin_scalar_fraction(d));
+          std::vector<int> i1 = g->get_colvars_index(), i2 = g->get_colvars_index_bound();
+          std::cout << " I";
+          for (int d = 0; d < sp.nd; d++) std::cout << " " << i1[d];
+          std::cout << " IB";
+          for (int d = 0; d < sp.nd; d++) std::cout << " " << i2[d];
+          std::cout << " FLAT " << g->current_bin_flat_bound() << " NX";
+          for (int d = 0; d < sp.nd; d++) std::cout << " " << g->nx[d];
+          std::cout << " P";
+          for (int d = 0; d < sp.nd; d++) std::cout << " " << (g->periodic[d] ? 1 : 0);
+          std::cout << "\n";
+        } else if (xb || (a.size() > p && a[p] == "GRID")) {
           // only the grid as init_from_colvars/init_from_boundaries/setup leave it
           print_grid(*g);
         } else if (cmd == "SW") {
